@@ -355,42 +355,77 @@ func c10Flows(e *Env, s *Sched) {
 		}
 		r.Check(okG, "setupGraphForRetry: uses the retry graph constructor", e.Pos(sg.Pos()), "the retry does not use NewExecutionGraphForRetry (no reset of the unfinished part)")
 	}
-	// ---- restart
-	gp := sp.Func("getPreviousExecutionParams")
-	for _, f := range findCmd("restartCmd") {
-		for _, ci := range ir.CallsIn(f, func(c *ssa.CallCommon) bool { return c.StaticCallee() == loadFn }) {
-			arg := ci.Common().Args[2]
-			if s, isC := ir.ConstString(arg); isC && s == "" {
-				continue // the first load (to find the running instance) uses default params
-			}
-			ok := derivesFrom(arg, func(v ssa.Value) bool {
-				c, okc := v.(*ssa.Call)
-				return okc && gp != nil && c.Call.StaticCallee() == gp
-			})
-			r.Check(ok, "restart: dag.Load(…, params = getPreviousExecutionParams(…))", e.InstrPos(ci),
-				"the restart does not load the DAG with the parameters of the run it repeats: "+e.C.Render(arg))
+	// ---- restart: the parameters the DAG is re-loaded with are GetLatestStatus(…).Params,
+	// taken directly or through a helper of the command that returns exactly that
+	var latestParams func(v ssa.Value, d int) bool
+	latestParams = func(v ssa.Value, d int) bool {
+		v = ir.Resolve(v)
+		if d > 4 {
+			return false
 		}
-	}
-	if gp != nil {
-		ok := false
-		for _, b := range gp.Blocks {
+		if p, okp := e.C.PathOf(v); okp && p.Dotted() == "Params" {
+			if ex, isE := ir.Resolve(p.Root).(*ssa.Extract); isE {
+				if c, isC := ex.Tuple.(*ssa.Call); isC && c.Call.IsInvoke() && c.Call.Method.Name() == "GetLatestStatus" {
+					return true
+				}
+			}
+		}
+		var call *ssa.Call
+		switch x := v.(type) {
+		case *ssa.Call:
+			call = x
+		case *ssa.Extract:
+			if c, isC := x.Tuple.(*ssa.Call); isC && x.Index == 0 {
+				call = c
+			}
+		case *ssa.Phi:
+			for _, ed := range x.Edges {
+				if !latestParams(ed, d+1) {
+					return false
+				}
+			}
+			return len(x.Edges) > 0
+		}
+		if call == nil || call.Call.StaticCallee() == nil || !e.P.Funcs[call.Call.StaticCallee()] {
+			return false
+		}
+		n := 0
+		for _, b := range call.Call.StaticCallee().Blocks {
 			for _, in := range b.Instrs {
-				if rt, isR := in.(*ssa.Return); isR {
-					for _, v := range RetVals(rt, 0) {
-						if p, okp := e.C.PathOf(v); okp && p.Dotted() == "Params" {
-							if ex, isE := ir.Resolve(p.Root).(*ssa.Extract); isE {
-								if c, isC := ex.Tuple.(*ssa.Call); isC && c.Call.IsInvoke() && c.Call.Method.Name() == "GetLatestStatus" {
-									ok = true
-								}
-							}
+				if rt, isR := in.(*ssa.Return); isR && len(rt.Results) > 0 {
+					// error returns with a zero value do not count
+					if len(rt.Results) > 1 {
+						if !ir.IsNilConst(ir.Resolve(rt.Results[len(rt.Results)-1])) {
+							continue
+						}
+					}
+					for _, rv := range RetVals(rt, 0) {
+						n++
+						if !latestParams(rv, d+1) {
+							return false
 						}
 					}
 				}
 			}
 		}
-		r.Check(ok, "getPreviousExecutionParams: returns GetLatestStatus(…).Params", e.Pos(gp.Pos()), "the previous run's parameters are not taken from its recorded status")
-	} else {
-		r.Unknown("cmd.getPreviousExecutionParams", "-", "not found")
+		return n > 0
+	}
+	nRestart := 0
+	for _, f := range findCmd("restartCmd") {
+		for _, g := range sortedFns(e.inlinedSet(f, nil)) {
+			for _, ci := range ir.CallsIn(g, func(c *ssa.CallCommon) bool { return c.StaticCallee() == loadFn }) {
+				arg := ci.Common().Args[2]
+				if s, isC := ir.ConstString(arg); isC && s == "" {
+					continue // the first load (to find the running instance) uses default params
+				}
+				nRestart++
+				r.Check(latestParams(arg, 0), "restart: dag.Load(…, params = getPreviousExecutionParams(…))", e.InstrPos(ci),
+					"the restart does not load the DAG with the parameters of the run it repeats: "+e.C.Render(arg))
+			}
+		}
+	}
+	if nRestart == 0 {
+		r.Unknown("restart command: re-load of the DAG with the previous parameters", "-", "no dag.Load with non-default parameters in the restart command")
 	}
 }
 
